@@ -800,6 +800,63 @@ def exhaustive_c08_net():
     return out
 
 
+def exhaustive_c08_grid():
+    """bounded-exhaustive grid state machine on a 2x1 grid with two agents: every within-quantifier history of length <= 3 over
+    {place a c, remove a, move a t (in-grid, x beyond the edge, y beyond the edge), swap} — first with `empties` never read, then
+    (length <= 2) with `empties` built —, a dump after every call.  Removing both agents returns to the initial observable state
+    (`remove_agent` of an unplaced agent is silent on a SingleGrid and a rejected TypeError on a MultiGrid), so the histories are
+    chained in one scenario per class and torus flag.  A tiny simulation of occupancy decides which `place` calls are within
+    the quantifier (an error in it would show as an oracle failure on the unchanged tree)."""
+    import itertools
+
+    cells = [(0, 0), (1, 0)]
+    targets = [(0, 0), (1, 0), (2, 0), (0, -1)]
+    ops = [("swap", 0, 1)]
+    for a in (0, 1):
+        ops += [("place", a, c) for c in cells] + [("remove", a, None)] + [("move", a, t) for t in targets]
+
+    def simulate(hist, multi, torus):
+        """-> lines or None if a place call would leave the quantifier"""
+        pos, body = {0: None, 1: None}, []
+        occ = lambda c, but=None: [b for b in pos if pos[b] == c and b != but]  # noqa: E731
+        for k, a, x in hist:
+            if k == "place":
+                if pos[a] is not None:
+                    return None
+                if multi or not occ(x):
+                    pos[a] = x
+                body.append(f"place {a} {x[0]} {x[1]}")
+            elif k == "remove":
+                pos[a] = None
+                body.append(f"remove {a}")
+            elif k == "move":
+                t = x if x in cells else ((x[0] % 2, x[1] % 1) if torus else None)
+                if t is not None and (pos[a] is not None or not multi) and (multi or not occ(t, a)):
+                    pos[a] = t
+                body.append(f"move {a} {x[0]} {x[1]}")
+            else:
+                if pos[0] is not None and pos[1] is not None:
+                    pos[0], pos[1] = pos[1], pos[0]
+                body.append("swap 0 1")
+            body.append("dump")
+        return body + ["remove 0", "remove 1"]
+
+    out = []
+    for kind in ("single", "multi"):
+        for torus in (0, 1):
+            lines = [grid_header(kind, 2, 1, torus, False, 2)]
+            for built, length in ((False, 3), (True, 2)):
+                if built:
+                    lines += ["empties", "dump"]
+                for n in range(1, length + 1):
+                    for hist in itertools.product(ops, repeat=n):
+                        body = simulate(hist, kind == "multi", torus)
+                        if body:
+                            lines += body + (["empties", "mask"] if built and n == length else [])
+            out.append(core.Scenario(lines, {"exhaustive": True}))
+    return out
+
+
 RADII = [1, 1, 1, 2, 2, 3, 4, 7]
 
 
